@@ -15,7 +15,10 @@
 (***************************************************************************)
 EXTENDS Bytes
 
-TxUnits == {"txxid", "txcommit", "txrollback", "ddl", "autorow", "stmtdml"}
+\* ("xidalone" / "commitalone": a commit event that closes nothing - no BEGIN before it, as in MariaDB-shaped streams where the
+\* GTID event opens the transaction and its rows were already committed one by one - is a commit point of its own: an empty
+\* transaction that advances the position)
+TxUnits == {"txxid", "txcommit", "txrollback", "ddl", "autorow", "stmtdml", "xidalone", "commitalone"}
 
 Last(s) == s[Len(s)]
 
